@@ -57,6 +57,8 @@ type FuncSpec struct {
 	Method    string
 	Transparent bool
 	GhostSets []*GhostSet
+	Rely      []*Clause // assumed after every lock acquisition: what other goroutines leave alone (ownership)
+	usesLocked int
 	NilRecv   bool     // the receiver may be nil (no implicit non-nil assumption)
 	Spawns    []string // parameters holding functions that run later: their precondition is checked at the call
 }
@@ -179,7 +181,7 @@ var subKeywords = map[string]bool{
 	"requires": true, "ensures": true, "modifies": true, "loop": true, "protects": true,
 	"invariant": true, "assume": true, "inline": true, "maypanic": true, "nosafety": true,
 	"params": true, "results": true, "let": true, "letold": true, "forall": true, "note": true, "property": true,
-	"selfcomp": true, "held": true, "transparent": true, "ghostset": true, "spawns": true, "nilrecv": true,
+	"selfcomp": true, "held": true, "transparent": true, "ghostset": true, "spawns": true, "nilrecv": true, "rely": true,
 }
 
 type rawDirective struct {
@@ -660,6 +662,12 @@ func parseFuncSub(fs *FuncSpec, d rawDirective, path string) error {
 		fs.LockHeld = append(fs.LockHeld, strings.TrimSpace(d.text))
 	case "nilrecv":
 		fs.NilRecv = true
+	case "rely":
+		cl, err := parseClause(d.text, path, d.line)
+		if err != nil {
+			return err
+		}
+		fs.Rely = append(fs.Rely, cl)
 	case "spawns":
 		for _, p := range strings.Split(d.text, ",") {
 			fs.Spawns = append(fs.Spawns, strings.TrimSpace(p))
